@@ -62,6 +62,35 @@ RVA_ARG = {"slice": 2, "r2f": 2, "r2v": 2, "byrva": 2, "derva": 3, "derva_copy":
            "derva_slice_s": 3, "derva_cstr": 2}
 
 
+def changed_sources(pid):
+    """-> (library source files of the checked tree that differ from source-baseline.json, those of them
+    that matter for property `pid`: its anchor files, or files no property anchors (shared helpers))"""
+    import hashlib
+    try:
+        base = json.load(open(os.path.join(ROOT, "source-baseline.json")))["files"]
+    except Exception:
+        return [], []
+    cur = {}
+    top = os.path.join(build.REPO, "src")
+    for r, _, fs in os.walk(top):
+        for f in fs:
+            p = os.path.join(r, f)
+            try:
+                cur[os.path.relpath(p, build.REPO)] = hashlib.sha256(open(p, "rb").read()).hexdigest()
+            except OSError:
+                pass
+    changed = sorted(p for p in set(base) | set(cur) if base.get(p) != cur.get(p))
+    anchors, anchored_anywhere = set(), set()
+    for l in open(os.path.join(ROOT, "properties.jsonl")):
+        d = json.loads(l)
+        anchored_anywhere |= set(d["anchors"]["files"])
+        if d["id"] == pid:
+            anchors = set(d["anchors"]["files"])
+    skip = ("src/bin/", "src/mmap/")
+    touched = [p for p in changed if p in anchors or (p not in anchored_anywhere and not p.startswith(skip))]
+    return changed, touched
+
+
 def check(pid, tier):
     t0 = time.time()
     seed = int(os.environ.get("VERIF_SEED", "20260926"))
@@ -151,6 +180,14 @@ def check(pid, tier):
     # quick tier: every generator runs with several sub-seeds (its enumerated part comes out identical
     # each time and is kept once, its random part is multiplied); all derived from the one seed
     reps = int(os.environ.get("VERIF_REPS", "4" if tier == "quick" else "1"))
+    # change-directed budget: source files that differ from the recorded baseline and are anchored in this
+    # property (or are shared helpers) multiply the random part of the quick tier again — more search where
+    # the code changed, no change of any verdict rule
+    changed, touched = changed_sources(pid)
+    cov["changed_since_baseline"] = changed
+    if touched and tier == "quick" and "VERIF_REPS" not in os.environ:
+        reps = 16
+    cov["budget_escalated"] = bool(touched and reps == 16)
     seen_cases = set()
     for g in P.gens:
         for rep in range(reps):
